@@ -86,7 +86,7 @@ func runScriptWall(c *rig.Ctx, cs Case) *failure {
 	var f *failure
 	msg, panicked := rig.Recover(func() {
 		t0 := mono()
-		g := newGateway(cs.Path, cs.QPS, cs.Burst, nil)
+		g := newGateway(cs.Path, cs.QPS, cs.Burst, nil, cs.SchemaName, cs.OtherName)
 		defer g.close()
 		cur := &wallSeg{QPS: cs.QPS, Burst: cs.Burst, Fresh: true, T0: t0, T1: t0}
 		segs = append(segs, cur)
